@@ -116,7 +116,12 @@ class Checker:
         """a violation located in a file in which (or below which, on the call stack) the engine
         met a construct it cannot model is not a verdict: it becomes 'not decided'"""
         import sa.interp as _ip
-        entries = sorted(set(_ip.OPAQUE))
+        entries = []
+        seen = set()
+        for q, what, loc, files in _ip.OPAQUE:
+            if (q, what, loc) not in seen:
+                seen.add((q, what, loc))
+                entries.append((q, what, loc, frozenset(files)))
         if not entries:
             return
         for o in self.obligations:
